@@ -40,6 +40,8 @@ def _add_its_edges(ITS, G, H, eta):
         n_ITS2 = eta_G[n2]
         n_H1 = eta_H_inv[n_ITS1]
         n_H2 = eta_H_inv[n_ITS2]
+        if n_H1 is None or n_H2 is None:
+            continue
         e_H = 0
         if H.has_edge(n_H1, n_H2):
             e_H = H[n_H1][n_H2][BOND_KEY]
